@@ -743,3 +743,67 @@ func sharedSliceSource(info *types.Info, body ast.Node, v *types.Var) ast.Expr {
 	}
 	return nil
 }
+
+// fieldStore is one place where a value is put into a struct field: an assignment `x.F = v` or the key `F: v` of a
+// composite literal; Stmt is the statement that performs it.
+type fieldStore struct {
+	Val  ast.Expr
+	Stmt ast.Node
+}
+
+// storesOfField lists the stores to fld in body (function literals excluded).
+func storesOfField(info *types.Info, body ast.Node, fld *types.Var) []fieldStore {
+	var out []fieldStore
+	if fld == nil {
+		return nil
+	}
+	var stmts []ast.Node
+	var walk func(n ast.Node) bool
+	walk = func(n ast.Node) bool {
+		if n == nil {
+			return true
+		}
+		if _, isLit := n.(*ast.FuncLit); isLit {
+			return false
+		}
+		if st, isStmt := n.(ast.Stmt); isStmt {
+			switch st.(type) {
+			case *ast.BlockStmt, *ast.IfStmt, *ast.ForStmt, *ast.RangeStmt, *ast.SwitchStmt, *ast.TypeSwitchStmt, *ast.SelectStmt, *ast.CaseClause, *ast.CommClause, *ast.LabeledStmt:
+			default:
+				stmts = append(stmts, st)
+				defer func() { stmts = stmts[:len(stmts)-1] }()
+			}
+		}
+		cur := func() ast.Node {
+			if len(stmts) > 0 {
+				return stmts[len(stmts)-1]
+			}
+			return n
+		}
+		switch t := n.(type) {
+		case *ast.AssignStmt:
+			if len(t.Lhs) == len(t.Rhs) {
+				for i, l := range t.Lhs {
+					if eng.IsField(info, l, fld) {
+						out = append(out, fieldStore{t.Rhs[i], t})
+					}
+				}
+			}
+		case *ast.CompositeLit:
+			if v := litKeyValue(info, t, fld); v != nil {
+				out = append(out, fieldStore{v, cur()})
+			}
+		}
+		// children
+		ast.Inspect(n, func(m ast.Node) bool {
+			if m == n || m == nil {
+				return true
+			}
+			walk(m)
+			return false
+		})
+		return false
+	}
+	walk(body)
+	return out
+}
